@@ -11,6 +11,7 @@ BINARIES = {
     "h_yield": ("h_yield", ["h_yield.c"] + FB),
     "h_rt": ("h_rt", ["h_rt.c"] + FB),
     "h_sleep": ("h_sleep", ["h_sleep.c"] + FB),
+    "h_join": ("h_join", ["h_join.c"] + FB),
 }
 
 ASSUME_COMMON = [
@@ -342,8 +343,29 @@ def c09(tier, seed):
                 assumptions=ASSUME_COMMON + ["CLOCK_MONOTONIC brackets each call, so load can only enlarge the measured span"])
 
 
+def c04(tier, seed):
+    q = tier == "quick"
+    runs = fb_plan(tier, seed, "h_join", "join", ["MAINT_PUBLISH", "SCHEDULED", "SET_AND_WAIT", "SWITCH_PRE", "SWITCH_POST", "STEAL"], 40, 300,
+                   extra=dict(livelock_prop="C04", drivers=8), stall_every=3)
+    k = 900
+    for sc in range(7):
+        k += 1
+        runs.append(fb("h_join", "mon", "join", seed, k, 4 if q else 8, mode="jitter", trials=30 if q else 300, scenario=sc, livelock_prop="C04"))
+    return dict(runs=runs,
+                rule="a case = one scenario trial: one target fiber (random pre-delay, unique return token, gated alive when a second use of its "
+                "handle is generated) and 1-2 actors with random delays, 8 trial drivers running concurrently; classes S1 join x finish, S2 repeated "
+                "tryjoin x finish, S3 detach x finish, S4 two joiners (join/tryjoin) racing, S5 join+tryjoin after detach, S6 detach while a joiner "
+                "is blocked, S7 double detach. Oracles: success only after the target's last statement and with its token, at most one success, "
+                "S4 exactly one success and one failure, S5/S6/S7 error returns, ghost reclaim rules (never while running/queued/unfinished, "
+                "never twice), every harness fiber reclaimed once the runtime settles, ASan on fiber_t and stacks.",
+                min_events={"join_trials": 500, "join_joiner_arrived_first": 5, "join_target_finished_first": 5, "join_tryjoin_not_yet": 10,
+                            "S6 detach while a joiner is blocked": 10, "S4 second joiner while one is blocked": 10},
+                assumptions=ASSUME_COMMON + ["no handle use after a successful join/tryjoin/detach of a finished fiber (user UB, not generated)"])
+
+
 CHECKS = {
     "C01": c01,
+    "C04": c04,
     "C09": c09,
     "C03": c03,
     "C05": c05,
